@@ -51,6 +51,8 @@ type farm struct {
 	conns    []*simServerConn
 	fail     bool // dialer fails
 	closeErr bool // dialed connections close, but report an error from Close (like TLS on a cut link)
+	// closeDelay: closing a dialed connection takes this long; it counts as open until then
+	closeDelay time.Duration
 }
 
 func (f *farm) DialContext(ctx context.Context, network, addr string) (net.Conn, error) {
@@ -63,6 +65,7 @@ func (f *farm) DialContext(ctx context.Context, network, addr string) (net.Conn,
 	if f.closeErr {
 		c.CloseErr = errors.New("close: broken pipe")
 	}
+	c.CloseDelay = f.closeDelay
 	sc := &simServerConn{id: len(f.conns), conn: c, dialedAt: time.Now()}
 	sc.srv = simnet.NewServer(c, 54460)
 	hello := ref.ServerHello{Name: "SimHouse", Major: 23, Minor: 8, Revision: 54460, DisplayName: fmt.Sprintf("conn-%d", sc.id), Timezone: "UTC"}
@@ -144,6 +147,10 @@ func (sc *simServerConn) respond(s *simnet.Server) {
 			sc.conn.Deliver(e.B, nil)
 		case r.body == "CUT":
 			sc.conn.FailReads(errors.New("connection reset by peer"))
+		case r.body == "RST":
+			// the peer resets the connection: reads fail and so does every later write (the Cancel packet too)
+			sc.conn.FailReads(errors.New("connection reset by peer"))
+			sc.conn.FailWritesAfter(len(sc.conn.WrittenBytes()))
 		case r.body == "EXCCUT":
 			// half of an exception packet, then the transport dies
 			e := &ref.Enc{NoMap: true}
@@ -174,7 +181,8 @@ func TestC11Pool(t *testing.T) {
 }
 
 func runC11(rt *rapid.T, st *stats.Collector) {
-	f := &farm{closeErr: rapid.IntRange(0, 3).Draw(rt, "close-returns-error") == 0}
+	f := &farm{closeErr: rapid.IntRange(0, 3).Draw(rt, "close-returns-error") == 0,
+		closeDelay: rapid.SampledFrom([]time.Duration{0, 0, 0, 2 * time.Millisecond, 7 * time.Millisecond}).Draw(rt, "close-takes")}
 	maxConns := rapid.IntRange(1, 4).Draw(rt, "max-conns")
 	minConns := rapid.IntRange(0, min(2, maxConns)).Draw(rt, "min-conns")
 	lifetime := time.Duration(rapid.SampledFrom([]int{200, 1000, 60000}).Draw(rt, "lifetime-ms")) * time.Millisecond
@@ -274,8 +282,18 @@ func runC11(rt *rapid.T, st *stats.Collector) {
 		}
 		if !closed {
 			s := p.Stat()
-			if int(s.AcquiredResources()) != len(live()) {
-				rt.Fatalf("[%s] Stat().AcquiredResources() = %d, %d handles are held\nhistory: %s", what, s.AcquiredResources(), len(live()), history())
+			// A connection whose (slow) Close is still running is no longer held by anybody but is
+			// still counted by the pool until its destruction is over.
+			closing := 0
+			f.mu.Lock()
+			for _, sc := range f.conns {
+				if sc.conn.NumCloseCalls() > 0 && !sc.conn.Closed() {
+					closing++
+				}
+			}
+			f.mu.Unlock()
+			if d := int(s.AcquiredResources()) - len(live()); d < 0 || d > closing {
+				rt.Fatalf("[%s] Stat().AcquiredResources() = %d, %d handles are held (%d connections are being closed)\nhistory: %s", what, s.AcquiredResources(), len(live()), closing, history())
 			}
 			if int(s.TotalResources()) > maxConns {
 				rt.Fatalf("[%s] Stat().TotalResources() = %d > MaxConns %d\nhistory: %s", what, s.TotalResources(), maxConns, history())
@@ -324,7 +342,7 @@ func runC11(rt *rapid.T, st *stats.Collector) {
 		if h.dead {
 			return // nothing to do in this state (a no-op step; skipping too often makes rapid give up)
 		}
-		kind := rapid.SampledFrom([]string{"OK", "OK", "EXC", "CUT", "EXCCUT", "HANG", "PING"}).Draw(rt, "do-kind")
+		kind := rapid.SampledFrom([]string{"OK", "OK", "EXC", "CUT", "EXCCUT", "RST", "HANG", "PING"}).Draw(rt, "do-kind")
 		ctx := context.Background()
 		var err error
 		switch kind {
@@ -337,7 +355,7 @@ func runC11(rt *rapid.T, st *stats.Collector) {
 			h.dead = true
 		default:
 			err = h.c.Do(ctx, ch.Query{Body: kind})
-			if kind == "CUT" || kind == "EXCCUT" {
+			if kind == "CUT" || kind == "EXCCUT" || kind == "RST" {
 				h.dead = true
 			}
 		}
@@ -345,7 +363,7 @@ func runC11(rt *rapid.T, st *stats.Collector) {
 		if (kind == "OK" || kind == "PING") && err != nil {
 			rt.Fatalf("h%d %s failed: %v\nhistory: %s", h.id, kind, err, history())
 		}
-		if (kind == "EXC" || kind == "CUT" || kind == "EXCCUT" || kind == "HANG") && err == nil {
+		if (kind == "EXC" || kind == "CUT" || kind == "EXCCUT" || kind == "RST" || kind == "HANG") && err == nil {
 			rt.Fatalf("h%d %s returned nil\nhistory: %s", h.id, kind, history())
 		}
 	}
@@ -398,7 +416,7 @@ func runC11(rt *rapid.T, st *stats.Collector) {
 			if len(live()) >= maxConns {
 				return // nothing to do in this state (a no-op step; skipping too often makes rapid give up)
 			}
-			kind := rapid.SampledFrom([]string{"OK", "EXC", "CUT", "EXCCUT", "PING"}).Draw(rt, "pooldo-kind")
+			kind := rapid.SampledFrom([]string{"OK", "EXC", "CUT", "EXCCUT", "RST", "PING"}).Draw(rt, "pooldo-kind")
 			var err error
 			if kind == "PING" {
 				err = p.Ping(context.Background())
@@ -483,13 +501,17 @@ func runC11(rt *rapid.T, st *stats.Collector) {
 	}
 	synctest.Wait()
 	f.mu.Lock()
+	stillOpen := -1
 	for _, sc := range f.conns {
 		if !sc.conn.Closed() {
-			rt.Fatalf("after Close and release of all handles conn-%d is still open\nhistory: %s", sc.id, history())
+			stillOpen = sc.id
 		}
 	}
 	nconns := len(f.conns)
 	f.mu.Unlock()
+	if stillOpen >= 0 {
+		rt.Fatalf("Pool.Close has returned and all handles are released, but conn-%d is still open\nhistory: %s", stillOpen, history())
+	}
 	if _, err := p.Acquire(context.Background()); err == nil {
 		rt.Fatalf("Acquire on a closed pool succeeded\nhistory: %s", history())
 	}
@@ -517,7 +539,7 @@ func TestC12PoolRaces(t *testing.T) {
 		workers := rapid.IntRange(2, 8).Draw(rt, "workers")
 		maxConns := rapid.IntRange(1, 4).Draw(rt, "max-conns")
 		iters := rapid.OneOf(rapid.IntRange(1, 6), rapid.IntRange(10, 40)).Draw(rt, "iterations")
-		kinds := rapid.SliceOfN(rapid.SampledFrom([]string{"OK", "OK", "EXC", "CUT", "EXCCUT", "PING", "HOLD", "INS", "INS", "INS"}), 16, 16).Draw(rt, "kinds")
+		kinds := rapid.SliceOfN(rapid.SampledFrom([]string{"OK", "OK", "EXC", "CUT", "EXCCUT", "RST", "PING", "HOLD", "INS", "INS", "INS"}), 16, 16).Draw(rt, "kinds")
 		comp := rapid.SampledFrom([]ch.Compression{ch.CompressionDisabled, ch.CompressionLZ4, ch.CompressionLZ4, ch.CompressionZSTD, ch.CompressionLZ4HC}).Draw(rt, "compression")
 		rapid.SyncTest(rt, func(rt *rapid.T) {
 			f := &farm{}
